@@ -21,7 +21,7 @@ from ..core.log import EventLog, digest_of
 from ..core.runner import HarnessError
 from ..core.seeds import stream
 from . import history as H
-from .universe import TARGETS, build_universe, req_key
+from .universe import TARGETS, TEXT_ONLY_TARGETS, build_universe, req_key
 
 CHILD = os.path.join(os.path.dirname(os.path.abspath(__file__)), "child.py")
 
@@ -64,7 +64,7 @@ class GenEngineBase:
 
         warnings.simplefilter("ignore")
         self.fa = fa
-        type(self).universe = build_universe(fa)
+        type(self).universe = build_universe(fa, getattr(self, "extra_targets", ()))
         if len(self.universe) < 10:
             raise HarnessError("request universe has only %d entries: trace_arguments not understood" % len(self.universe))
 
@@ -103,8 +103,9 @@ class GenEngineBase:
 class C09Engine(GenEngineBase):
     name = "gensim-c09"
     prop = "C09"
+    extra_targets = tuple(TEXT_ONLY_TARGETS)
     rule = (
-        "seeded histories of generation requests (every (target, function, signature) of the five targets' "
+        "seeded histories of generation requests (every (target, function, signature) of the python, numpy, stablehlo, xla_client, cpp and lax targets' "
         "trace_arguments, numpy at debug 0 and 1, plus naming-stress programs), API steps of different requests "
         "interleaved, compared requests on their own context (first print and repetitions), background requests on "
         "shared contexts with aborted requests and exceptions injected at the k-th line event inside the package, "
@@ -164,7 +165,8 @@ class C09Engine(GenEngineBase):
 
     def make_case(self, seed, tier="quick"):
         kn = stream(seed, "interp")
-        cfg = dict(targets=TARGETS, n_requests=30 if tier == "quick" else 45, allow_faults=True, shared=True, debug_levels=DEBUG_LEVELS)
+        cfg = dict(targets=list(TARGETS) + list(self.extra_targets), n_requests=30 if tier == "quick" else 45, allow_faults=True,
+                   shared=True, debug_levels=DEBUG_LEVELS)
         return {"seed": seed, "hashseed": kn.choice([0, 1, 2, 3, kn.randrange(2**32), kn.randrange(2**32)]),
                 "history": H.gen_history(seed, self.universe, cfg)}
 
